@@ -208,13 +208,71 @@ COMMON_NOTE = ("Trusted: TLC/SANY with the CommunityModules Java overrides; the 
                "The verdict covers the behaviours recorded in this run (listed in the evidence), not all inputs; L2 model results hold for the scaled constants.")
 TECH = "TLA+ trace validation with TLC (recorded library calls checked against NumTrace/NumApi) + TLC model checking of the value algebra"
 
+def _t(level, tech=None):
+    return {"level": level, "note": COMMON_NOTE, "technique": tech or TECH}
+
+
 MANIFEST_TEXT = {
-    "C01": {
-        "level": "Every recorded addition/subtraction call (all operand forms, length pairs 0..17/23 on both sides of the 5-digit block boundary, "
-                 "carry/borrow chain patterns, four sign combinations) is accepted by the TLA+ trace specification, whose byte-level Add/Sub/Cmp "
-                 "are model-checked against TLC integers; underflow must panic / be None exactly when a<b.",
-        "note": COMMON_NOTE, "technique": TECH,
-    },
+    "C01": _t("Recorded add/sub calls (every operand form, length pairs 0..17/23 around the 5-digit block, carry/borrow chains, four sign pairs) are "
+              "validated by TLC against NumTrace; the asm! blocks are extracted from the source and model-checked instruction by instruction "
+              "(AsmBlock: every memory content for sizes 0..8 at base 2, Contract = exact partial sum/difference with returned carry); the Rust "
+              "wrapper code is transcribed (AddSub) and checked for all operands up to 7 digits with three calibration mutants.",
+              "TLA+ trace validation (TLC) + TLC model checking of the extracted asm! program and of the AddSub transcription"),
+    "C02": _t("Recorded products over every regime boundary (31..34, 63..66, 128/129, 256..258 digits; longer operand n, n+1, 1.25-2x, 2n+-1, 3n; "
+              "all-ones, sparse, hierarchical zero/ones structure, squares, zero digits) are validated by TLC with an exact byte-level product; "
+              "the mac3 transcription (all four regimes, scaled thresholds) is model-checked on 175 k operand pairs with two calibration mutants."),
+    "C03": _t("Recorded calls of every division API (26 forms x two types, both duplicated pre-check paths, landmark operands reaching a0==b0, "
+              "refinement and add-back, every normalisation shift, zero divisors) are validated by TLC through the relational definition of each "
+              "convention; KnuthD transcription model-checked on all operands (base 4 5/3 digits, base 8) with calibration mutants; NumMachine "
+              "behaviours replayed on the code."),
+    "C04": _t("Histories of in-place operations on long-lived registers with pairwise Eq/Ord/Hash observations and decimal twins are validated by "
+              "TLC (canonical form of every written register judged independently of its value); NumMachine behaviours (TLC simulation) are "
+              "replayed on the code with a canonical-form test after every step."),
+    "C05": _t("Recorded modpow/modinv calls (odd and even moduli, top digit 1 / 2^63 / all ones, bases shorter/equal/longer/multiples of the modulus, "
+              "zero windows, multi-digit exponents, all signs, +-1, zero modulus, negative exponent) are validated by TLC: every modular reduction "
+              "is re-checked from a quotient witness; Monty/plain_modpow transcription model-checked on 35 k triples with three calibration mutants."),
+    "C06": _t("Recorded to_str_radix / formatter / to_radix / parse / from_radix calls (all radices 2..36 and 2..256, 63/64/65/130 digits, powers of "
+              "the radix, up to 140 leading zeros, the parser language over a small alphabet exhaustively to length 3, formatter flag matrix) are "
+              "validated by TLC against Text.tla (unique digit string, accepted language, core::fmt padding); Radix transcription model-checked."),
+    "C07": _t("Recorded bit operations (nine sign pairs, powers of two and long zero/one runs, every shift type incl. negative and maximal amounts, "
+              "bit indices around the lowest set bit and beyond the top) validated by TLC against two's-complement definitions; BitOps (nine "
+              "routines with running carries and debug assertions) and ShiftBits (shl2/shr2, rounding, set_negative_bit) model-checked."),
+    "C08": _t("Recorded primitive conversions (every type's MIN/MAX +-2, 2^64/2^128 +-2, by-value errors returning the original) and float "
+              "conversions (tie / just-above / just-below patterns with the deciding bit 1..300 bits down, overflow edges, NaN/inf/subnormals) are "
+              "validated by TLC against Floats.tla (itself checked on a toy format); FloatPath model shows the window+sticky path equals RNE."),
+    "C09": _t("Recorded byte/word exports and imports (2^(8k-1)+-1, padding 0..9 bytes of 0x00/0xff, odd word counts) and iterator sessions are "
+              "validated by TLC (iterator = deque); the U32Digits transcription refines the deque for every call history (DigitIter), and all "
+              "81 000 (810 000) TLC-generated call histories are executed on the real iterator."),
+    "C10": _t("Every scalar operator form is called by name (5 operators x 10 forms x 12 scalar types x 2 big types, scalar %= big, Sum/Product, "
+              "value/reference forms on structured operands) and validated by TLC with the rule of the canonical operation; NumMachine behaviours "
+              "with rotating forms replayed on the code."),
+    "C11": _t("Recorded sqrt/cbrt/nth_root calls (below 2^64, up to and beyond 2^1024, perfect powers +-1, n up to u32::MAX, negatives, n = 0) in "
+              "the std and the no_std build are validated by TLC (r^n <= x < (r+1)^n); the fixpoint iteration is model-checked from every initial "
+              "guess (safety and termination) with two calibration mutants."),
+    "C12": _t("Recorded pow calls (every exponent type and form, exponents 0..70/300 and bit patterns, astronomical exponents with bases 0, +-1, "
+              "BigUint exponents at the u64/u128 edges) validated by TLC; exponent loop and powsign transcription model-checked."),
+    "C13": _t("Recorded gcd/lcm/extended_gcd/multiple-of/parity/inc/dec calls validated by TLC from certificates (cofactors and a Bezout pair) it "
+              "re-checks by multiplication; Stein transcription model-checked for all pairs <= 130; NumMachine behaviours replayed."),
+    "C14": _t("The matrix of documented failure cases and their neighbours in debug and release, plus a sampled cross-section of every other "
+              "driver in release, validated by TLC: outcome = panic exactly when Fails, checked_* = None exactly then and never a panic, every "
+              "recording shard terminates (a crash or time-out becomes a rejected `crashed` event)."),
+    "C15": _t("The extracted asm! programs are model-checked for memory safety (every load/store inside its array, stores only to lhs, rhs "
+              "untouched) for every memory content of the scaled instance; add/sub, text, sampling and division drivers run under a guard-page "
+              "allocator with operands that exactly fill their allocation (out-of-bounds access = SIGSEGV = rejected trace), borrowed operands "
+              "are compared before/after every call, returned text is checked against the radix alphabet.",
+              "TLC model checking of the extracted asm! program + TLA+ trace validation of guard-page runs"),
+    "C16": _t("TLC enumerates the configuration space (Config.tla); each configuration is built with cargo on /repo itself, a deterministic "
+              "transcript is recorded for std/no_std x debug/release (thorough: all 40) and the outcomes are replayed against Config.tla (all "
+              "built, all digests equal); each distinct transcript is validated by NumTrace.",
+              "TLC enumeration and trace validation over the feature-configuration model + cargo builds"),
+    "C17": _t("Tokens emitted by a recording Serializer and values produced by a token-replay Deserializer (four size-hint modes, trailing "
+              "zeros, every sign byte) validated by TLC: elements = base-2^32 digits, declared length = element count, sign in {-1,0,1}."),
+    "C18": _t("Sampler calls on scripted RNG streams (zeros, ones, counter, reject-k-then-accept ...) validated by TLC: the result is the stream "
+              "function of the words actually consumed (first candidate below the bound, top word shifted down), empty ranges panic."),
+    "C19": _t("Recorded sign/negation/identity helper calls incl. inconsistent (Sign, magnitude) requests and trait-path conversions validated by "
+              "TLC; NumMachine behaviours replayed on the code."),
+    "C20": _t("The multiply-accumulate work counter for dense operands (n = 256..16384 balanced; n x 2n-1, 2n, 64n unbalanced) is validated by "
+              "TLC against the inequalities of the statement; the CostModel recurrence is checked by TLC and compared with the measurement."),
 }
 NOT_APPLICABLE = {}
 
